@@ -161,6 +161,12 @@ def gen_case(seed, k):
     ts = ["Default"] + rng.sample(["Debug", "Clone", "PartialEq", "Hash"], rng.randint(0, 2))
     rng.shuffle(ts)
     td = G.random_type(rng, ts, G.Opts(p_attr=0.9, max_fields=4, max_variants=5, p_partial=0.3, allow_empty_enum=False))
+    # the field expressions announce their evaluation: they have to run in declaration order (a struct expression may
+    # list its fields in any order, the values are the same unless the initialisers depend on each other)
+    for v, f in td.all_fields():
+        d = f.sem.get("Default") or {}
+        if d.get("expr") and "(" in d["expr"] and "::" in d["expr"] and rng.random() < 0.8:
+            d["expr"] = "%sseq(%d, %s)" % (RT, f.slot, d["expr"])
     text = S.render(td, rng_for(seed, PROP, "spell", k), extras=False)
     new = td.tsem.get("Default", {}).get("new")
     drive = "        %sdrive_default::<%s>(\"c%d\", %s);" % (
@@ -251,6 +257,13 @@ def judge(chk, c, obs, dropped):
             chk.violation("%s-value|%s" % (op, kind), "%s() is not the designated value\nobserved: %s\nexpected: %s\nevents: %s\n%s"
                           % (op, res[0], want, ev, c.text), files)
             return
+        order = [int(x[3:]) for x in ev.split(",") if x.startswith("dx:")]
+        if order != sorted(order):
+            chk.violation("%s-evaluation-order|%s" % (op, kind), "%s() evaluates the field expressions out of declaration order: %s\n%s"
+                          % (op, order, c.text), files)
+            return
+        if len(order) >= 2:
+            chk.count("ordered-initialisers")
     if "default" not in seen or (c.info.get("new") and "new" not in seen):
         chk.inconc("incomplete-output")
         return
